@@ -320,6 +320,72 @@ def rule_drain(ctx, rep):
             r.finding(inst, loc_str(b.f, c.loc), "kind is parked by name but %s does not add a graph node: an unreferenced declaration of this kind vanishes from the library" % (vn or "its visitor"))
 
 
+def rule_merge(ctx, rep):
+    r = rep.rule("R-C03-merge", "re-assembly after the sort drains each by-name map on its own: no remove() on one declaration map is control-dependent "
+                                "on the outcome of a remove() on the other (a type and a POU may share a name)", floor=2, floor_what="remove() calls in the merge")
+    ap = ctx.prog.get("ironplc_analyzer::xform_toposort_declarations::apply")
+    if not ap:
+        rep.error("R-C03-merge", "apply not found")
+        return
+    bodies = [ap[0]] + [cb for cb in ctx.prog.bodies.values() if cb.f.get("parent") == ap[0].id]
+    from vlib.mir import switch_info
+    n = 0
+    for b in bodies:
+        rem = [c for c in b.calls() if (c.callee or "").endswith(("HashMap::remove", "BTreeMap::remove"))]
+
+        def map_of(c):
+            p = op_place(c.args[0])
+            rt = b.root(p) if p else None
+            if rt is None:
+                return None
+            # closure capture: _1.<n> ; plain local otherwise
+            return (rt[0], tuple(x[2] for x in rt[1] if isinstance(x, list) and x[0] == "f"))
+        for c in rem:
+            n += 1
+            inst = "%s|remove#%d" % (norm(b.id).replace("ironplc_analyzer::xform_toposort_declarations::", ""), n)
+            dep = None
+            for d in b.dominators().get(c.bb, set()):
+                si = switch_info(b, d)
+                if si and si["kind"] == "disc" and si["subject"][0] == "call":
+                    oc = si["subject"][1]
+                    if (oc.callee or "").endswith(("HashMap::remove", "BTreeMap::remove")) and oc.bb != c.bb and map_of(oc) != map_of(c):
+                        dep = oc
+            if dep is not None:
+                r.finding(inst + "|depends-on-other-map", loc_str(b.f, c.loc), "this remove() only runs when the remove() on the other map found nothing: a POU that shares its name with a type is never emitted")
+            else:
+                r.ok(inst, loc_str(b.f, c.loc))
+
+
+def rule_allsources(ctx, rep, rid="R-C03-allsources"):
+    r = rep.rule(rid, "resolve_types merges every source library: in the loop over the sources Library::extend is executed on every iteration "
+                      "(no path skips a library)", floor=1)
+    rb = ctx.prog.get("ironplc_analyzer::stages::resolve_types")
+    if not rb:
+        rep.error(rid, "resolve_types not found")
+        return
+    b = rb[0]
+    from vlib.mir import switch_info
+    ext = [c for c in b.calls() if c.callee == "ironplc_dsl::common::Library::extend"]
+    nxt = [c for c in b.calls() if (c.callee or "").endswith("Iterator>::next") and any(c.bb in b.reachable(e.target) for e in ext if e.target is not None)]
+    where = "%s:%d" % (b.f["file"], b.f["line"])
+    if len(ext) != 1 or not nxt:
+        r.finding("resolve_types|shape", where, "expected one Library::extend inside a loop over the sources")
+        return
+    loop_next = nxt[0]
+    si = switch_info(b, loop_next.target) if loop_next.target is not None else None
+    ok = False
+    if si and si["kind"] == "disc":
+        for succ, labs in si["edges"].items():
+            if labs == ["Some"]:
+                # from the Some edge, can we get back to the loop's next() without passing the extend block?
+                back = b.reachable(succ, avoid={ext[0].bb})
+                ok = loop_next.bb not in back
+    if ok:
+        r.ok("resolve_types|every iteration extends", loc_str(b.f, ext[0].loc))
+    else:
+        r.finding("resolve_types|skippable-source", loc_str(b.f, ext[0].loc), "an iteration of the loop over the sources can continue without merging that library: its declarations (and its errors) vanish")
+
+
 def rule_first(ctx, rep):
     r = rep.rule("R-C03-first", "parse_program returns Err whenever the tokenizer reported anything (the is_empty test of the tokenizer's diagnostics "
                                 "dominates the parse)", floor=1)
@@ -354,6 +420,8 @@ def run(ctx, rep):
     rule_insert(ctx, rep)
     rule_drain(ctx, rep)
     rule_first(ctx, rep)
+    rule_merge(ctx, rep)
+    rule_allsources(ctx, rep)
     # a faulty file must not be replaced in the file table by a different file that merely compares equal
     from rules.c06 import rule_types
     rule_types(ctx, rep, rid="R-C03-fileid")
